@@ -469,6 +469,7 @@ func (p *Package) newValueDecl(
 						pos, pos, "%s redeclared in this block\n\tprevious declaration at %v", name, oldpos)
 				}
 			}
+			p.useName(name)
 		}
 	}
 	spec.Names = nameIdents
@@ -774,6 +775,7 @@ func (p *ConstDefs) NextAt(at ValueAt, fn F, iotav int, pos token.Pos, names ...
 				cb.panicCodeErrorf(
 					pos, pos, "%s redeclared in this block\n\tprevious declaration at %v", name, oldpos)
 			}
+			pkg.useName(name)
 		}
 		idents[i] = &ast.Ident{Name: name}
 	}
